@@ -6,7 +6,8 @@
 // (variants: see call_sort below; -DC06_SET=0|1|2 selects which instantiations this executable contains)
 //   int  : plain int keys (trivial type)
 //   pair : (key, original index) + the id of the thread that assigned the slot last and a per-slot assignment
-//          counter: gives the write footprint of the merge phase (one writer per position, contiguous windows)
+//          counter: gives the write footprint of the merge phase (one writer per position, contiguous windows; writers are
+//          compared with each other only - which OS thread runs which worker is not observed)
 //   trk  : (key, original index) where the key lives in a heap block owned by the element and every
 //          construction / destruction is entered in a thread-safe ledger (live-instance counter)
 // Stable sorts print the arrangement as it is; unstable sorts print the key sequence as it is and the indices
@@ -145,16 +146,24 @@ template <typename It> std::string windows_of(It, size_t, int*) { return "-"; }
 template <typename It> std::string windows_of(It, size_t, Trk*) { return "-"; }
 template <typename It> std::string windows_of(It, size_t, PodKV*) { return "-"; }
 template <typename It> std::string windows_of(It v, size_t n, Pair*) {
-    // every position assigned exactly once, by a worker thread; maximal runs of equal writer = windows
+    // Write footprint of the merge phase: either no position was assigned at all (n <= 1: the sort returns at once), or
+    // every position was assigned exactly once; maximal runs of positions assigned by the same thread are the output
+    // windows.  Which OS thread plays which worker - in particular whether the calling thread takes part - is not
+    // part of the property: writers are only compared with each other.
+    bool any = false;
+    for (size_t i = 0; i < n; ++i) any = any || v[i].writes != 0;
+    if (!any) return "";
     std::vector<int> w;
-    const std::thread::id me = std::this_thread::get_id();
     for (size_t i = 0; i < n; ++i) {
-        if (v[i].writer == me) {
-            if (v[i].writes != 0) return "BADMAIN@" + std::to_string(i);
-            continue;
-        }
         if (v[i].writes != 1) return "BADWRITES@" + std::to_string(i) + ":" + std::to_string(v[i].writes);
         if (i > 0 && v[i - 1].writer == v[i].writer) ++w.back(); else w.push_back(1);
+    }
+    // a thread owns one window: the same writer must not come back after another one
+    std::vector<std::thread::id> seen;
+    for (size_t i = 0; i < n; ++i) {
+        if (i > 0 && v[i - 1].writer == v[i].writer) continue;
+        for (const auto& t : seen) if (t == v[i].writer) return "BADWINDOW@" + std::to_string(i);
+        seen.push_back(v[i].writer);
     }
     return join(w);
 }
